@@ -10,6 +10,7 @@ is explicit in the model (`goIndex`, `goSlice`, `goSliceFrom` panic exactly wher
 runtime would).
 -/
 import DtailModel.Lemmas.NoPanic
+import DtailModel.Lemmas.GenQuery
 import DtailModel.Model.Base64
 namespace Dtail.C10
 open Dtail
@@ -81,5 +82,14 @@ theorem C10_full_false : ¬ C10_full := by
     decoded, dispatched and started -/
 example : handleAndStart ⟨b64decode, fun _ => true, fun _ => none, b!"default"⟩
     (b!"protocol 4.1 base64 Z3JlcDpiZWZvcmU9MiAvZiByZWdleDpkZWZhdWx0IGE=") = .ok () := by decide
+
+/-! ### Tie G (panic-aware): the query parser as translated from the working tree on this run -/
+
+open Dtail.Go Dtail.Gen.MaprQuery in
+/-- **no query text crashes the server in the parser**: the `NewQuery` of the working tree (translated with every index
+    and slice expression guarded) returns a query or an error for every byte string a client can put behind `map` -/
+theorem C10_generated_query_parser_never_panics (ext : Ext) (q : Bytes) (hf : (Gen.MaprQuery.tokenize ext q).length < ext.fuel) :
+    ∃ r, Gen.MaprQuery.NewQuery ext q = Outcome.ok r :=
+  GenQuery.NewQuery_ok ext q hf
 
 end Dtail.C10
